@@ -334,6 +334,14 @@ func genConnKind(r *vh.Run, stream string, g int, transport string, race bool) t
 	if transport == "tcp" && c.CloseAt != "after" {
 		c.CloseMode = "half"
 	}
+	if c.CloseAt == "during" {
+		// A full close while the peer still streams makes the proxy's writes toward
+		// the closer fail; with a connection that cannot half-close the proxy then
+		// has to close it whole, and what the closer had sent last may still be
+		// unread in it. That is the in-memory twin of the TCP reset (see
+		// Assumptions) and is excluded in the same way.
+		c.CloseMode = "half"
+	}
 	c.Seg = []string{"none", "small", "mixed"}[rng.Intn(3)]
 	c.Chunk = []string{"small", "mixed", "large"}[rng.Intn(3)]
 	c.DSHead = dsHeads[(g/5)%len(dsHeads)]
